@@ -60,11 +60,28 @@ static inline int32_t getHashAlg(ssl_t *ssl)
     }
 }
 
+/* Is the hash of the transcript known yet? Not from ssl->cipher alone: a
+   client that offers a cached TLS <1.3 session for resumption carries that
+   session's suite there until a ServerHello (or HelloRetryRequest) names
+   the suite of this connection. */
+static inline psBool_t hashAlgIsKnown(ssl_t *ssl)
+{
+    if (ssl->cipher == NULL || ssl->cipher->ident == SSL_NULL_WITH_NULL_NULL)
+    {
+        return PS_FALSE;
+    }
+    if (!MATRIX_IS_SERVER(ssl) && !NGTD_VER(ssl, v_tls_1_3_any))
+    {
+        return PS_FALSE;
+    }
+    return PS_TRUE;
+}
+
 int32_t tls13TranscriptHashInit(ssl_t *ssl)
 {
     int32_t alg;
 
-    if (ssl->cipher == NULL || ssl->cipher->ident == SSL_NULL_WITH_NULL_NULL)
+    if (!hashAlgIsKnown(ssl))
     {
         /* When parsing ClientHello, the ciphersuite has not been negotiated
            yet, which means that do not know which hash we will end up using.
@@ -183,7 +200,7 @@ int32_t tls13TranscriptHashUpdate(ssl_t *ssl,
     }
 # endif /* USE_TLS_1_3_ONLY */
 
-    if (ssl->cipher == NULL || ssl->cipher->ident == SSL_NULL_WITH_NULL_NULL)
+    if (!hashAlgIsKnown(ssl))
     {
         /* When parsing ClientHello, the ciphersuite has not been negotiated
            yet, which means that do not know which hash we will end up using.
